@@ -119,6 +119,37 @@ func (k *Keeper) DeleteCodeHash(ctx sdk.Context, addr []byte) {
 	store.Delete(addr)
 }
 
+// IterateStorageOwners iterates through the addresses that own at least one storage entry,
+// in key order, no matter whether the account has code.
+// The callback can stop the iteration by returning true.
+func (k Keeper) IterateStorageOwners(ctx sdk.Context, callback func(addr common.Address) (stop bool)) {
+	store := ctx.KVStore(k.storeKey)
+	iterator := storetypes.KVStorePrefixIterator(store, evmtypes.KeyPrefixStorage)
+
+	defer func() {
+		_ = iterator.Close()
+	}()
+
+	prefixLen := len(evmtypes.KeyPrefixStorage)
+	var last common.Address
+	var seen bool
+	for ; iterator.Valid(); iterator.Next() {
+		key := iterator.Key()
+		if len(key) < prefixLen+common.AddressLength {
+			continue
+		}
+		addr := common.BytesToAddress(key[prefixLen : prefixLen+common.AddressLength])
+		if seen && addr == last {
+			continue
+		}
+		last, seen = addr, true
+
+		if callback(addr) {
+			break
+		}
+	}
+}
+
 // IterateContracts iterating through all code hash, represents for all smart contracts
 func (k Keeper) IterateContracts(ctx sdk.Context, callback func(addr common.Address, codeHash common.Hash) (stop bool)) {
 	store := ctx.KVStore(k.storeKey)
